@@ -214,29 +214,28 @@ where
         J: IntoIterator<Item = usize>,
     {
         let indices = indices.into_iter().collect::<Vec<_>>();
-        let min_index = *indices.first().unwrap();
         let leaves_vec = leaves.into_iter().collect::<Vec<_>>();
 
-        let max_index = start + leaves_vec.len();
-
-        let mut set_values = vec![Self::Hasher::default_leaf(); max_index - min_index];
-
-        for i in min_index..start {
-            if !indices.contains(&i) {
-                let value = self.get(i)?;
-                set_values[i - min_index] = value;
-            }
+        // Check everything before touching the tree, so that a rejected call changes nothing
+        if leaves_vec.is_empty() && indices.is_empty() {
+            return Err(Report::msg("no leaves or indices to be removed"));
+        }
+        if start + leaves_vec.len() > self.capacity() {
+            return Err(Report::msg("provided leaves do not fit in the tree"));
+        }
+        if indices.iter().any(|&i| i >= self.capacity()) {
+            return Err(Report::msg("index to remove exceeds set size"));
         }
 
-        for i in 0..leaves_vec.len() {
-            set_values[start - min_index + i] = leaves_vec[i];
+        // First reset the removed leaves, then write the new ones from `start`:
+        // a leaf that is both removed and written ends up written
+        for &i in &indices {
+            self.delete(i)?;
         }
-
-        for i in indices {
-            self.cached_leaves_indices[i] = 0;
+        if leaves_vec.is_empty() {
+            return Ok(());
         }
-
-        self.set_range(start, set_values.into_iter())
+        self.set_range(start, leaves_vec.into_iter())
             .map_err(|e| Report::msg(e.to_string()))
     }
 
